@@ -10,12 +10,12 @@ open CB CB.Monty
 
 theorem modOK_of_good {p : Params} {n m : Nat} (g : Good p n m) : ModOK p.modulus p.modNegInv := by
   have hv : val p.modulus = m := by rw [g.modulus]; exact val_toLimbs_lt g.mlt
-  exact ⟨by rw [g.modulus]; exact toLimbs_WF _ _, by rw [hv]; exact g.k, by rw [hv]; have := g.mgt; omega⟩
+  exact ⟨by rw [g.modulus]; exact toLimbs_WF _ _, by rw [hv]; exact g.k, by rw [hv]; exact g.mpos⟩
 
 theorem rep_one_of_good {p : Params} {n m : Nat} (g : Good p n m) : Rep p.modulus p.one 1 := by
   have hv : val p.modulus = m := by rw [g.modulus]; exact val_toLimbs_lt g.mlt
   have hl : p.modulus.length = n := by rw [g.modulus]; exact toLimbs_length _ _
-  have hpos : 0 < m := by have := g.mgt; omega
+  have hpos : 0 < m := g.mpos
   refine ⟨by rw [g.one]; exact toLimbs_WF _ _, by rw [g.one, toLimbs_length, hl], ?_⟩
   rw [g.one, hv, hl, Nat.one_mul]
   exact val_toLimbs_lt (Nat.lt_trans (Nat.mod_lt _ hpos) g.mlt)
@@ -23,7 +23,7 @@ theorem rep_one_of_good {p : Params} {n m : Nat} (g : Good p n m) : Rep p.modulu
 theorem rep_canon {p : Params} {n m : Nat} (g : Good p n m) (x : Nat) : Rep p.modulus (canon n m x) x := by
   have hv : val p.modulus = m := by rw [g.modulus]; exact val_toLimbs_lt g.mlt
   have hl : p.modulus.length = n := by rw [g.modulus]; exact toLimbs_length _ _
-  have hpos : 0 < m := by have := g.mgt; omega
+  have hpos : 0 < m := g.mpos
   exact ⟨canon_WF x, by rw [canon_length, hl], by rw [canon_val g.mlt hpos, hv, hl]⟩
 
 theorem eq_canon_of_rep {p : Params} {n m : Nat} (g : Good p n m) {z : List Nat} {V : Nat}
